@@ -141,6 +141,82 @@ theorem firstBad_some (C : Codec) : ∀ (s : PStr) (i : Nat), (∃ c ∈ s, C.ca
       · rw [hc] at hxe; cases hxe
       · exact ih (i + 1) ⟨x, hx, hxe⟩
 
+/-! ### the other error handlers -/
+
+theorem handled_xcr (C : Codec) (s : PStr) : handled C .xmlcharrefreplace s = xmlcharrefreplace C s := by
+  simp only [handled, xmlcharrefreplace, replacementFor, Option.getD_some]
+  congr 1
+
+theorem hexDigit_lt128 (d : Nat) (h : d < 16) : hexDigit d < 128 := by
+  unfold hexDigit; split <;> omega
+
+theorem toHexFixed_lt128 (w : Nat) : ∀ (n : Nat), ∀ d ∈ toHexFixed w n, d < 128 := by
+  induction w with
+  | zero => intro n d hd; simp [toHexFixed] at hd
+  | succ w ih =>
+    intro n d hd
+    simp only [toHexFixed, List.mem_append, List.mem_singleton] at hd
+    rcases hd with hd | rfl
+    · exact ih _ d hd
+    · exact hexDigit_lt128 _ (Nat.mod_lt _ (by omega))
+
+theorem backslashEscape_lt128 (c : Nat) : ∀ d ∈ backslashEscape c, d < 128 := by
+  intro d hd
+  unfold backslashEscape at hd
+  split at hd
+  · simp only [List.mem_append, List.mem_cons, List.not_mem_nil, or_false] at hd
+    rcases hd with (rfl | rfl) | hd
+    · omega
+    · omega
+    · exact toHexFixed_lt128 _ _ d hd
+  · split at hd
+    · simp only [List.mem_append, List.mem_cons, List.not_mem_nil, or_false] at hd
+      rcases hd with (rfl | rfl) | hd
+      · omega
+      · omega
+      · exact toHexFixed_lt128 _ _ d hd
+    · simp only [List.mem_append, List.mem_cons, List.not_mem_nil, or_false] at hd
+      rcases hd with (rfl | rfl) | hd
+      · omega
+      · omega
+      · exact toHexFixed_lt128 _ _ d hd
+
+theorem replacement_lt128 (h : Handler) (c : Nat) : ∀ d ∈ (replacementFor h c).getD [], d < 128 := by
+  intro d hd
+  cases h with
+  | strict => simp [replacementFor] at hd
+  | ignore => simp [replacementFor] at hd
+  | replace => simp [replacementFor] at hd; omega
+  | xmlcharrefreplace => exact charref_lt128 c d (by simpa [replacementFor] using hd)
+  | backslashreplace => exact backslashEscape_lt128 c d (by simpa [replacementFor] using hd)
+
+/-- whatever a handler substitutes is ASCII, so the handled string is encodable as soon as ASCII is -/
+theorem handled_encodable (C : Codec) (hA : C.AsciiOK) (h : Handler) (s : PStr) : C.Encodable (handled C h s) := by
+  intro d hd
+  simp only [handled, List.mem_flatMap] at hd
+  obtain ⟨c, _, hd⟩ := hd
+  split at hd
+  · simp at hd; subst hd; assumption
+  · exact hA d (replacement_lt128 h c d hd)
+
+theorem pyEncode_nonstrict (C : Codec) (hA : C.AsciiOK) (h : Handler) (hs : h ≠ .strict) (s : PStr) :
+    pyEncode C h s = .bytes (C.enc (handled C h s)) := by
+  cases h with
+  | strict => exact absurd rfl hs
+  | ignore => simp only [pyEncode, firstBad_none C _ 0 (handled_encodable C hA _ s)]
+  | replace => simp only [pyEncode, firstBad_none C _ 0 (handled_encodable C hA _ s)]
+  | xmlcharrefreplace => simp only [pyEncode, firstBad_none C _ 0 (handled_encodable C hA _ s)]
+  | backslashreplace => simp only [pyEncode, firstBad_none C _ 0 (handled_encodable C hA _ s)]
+
+theorem handled_encodable_id (C : Codec) (h : Handler) (s : PStr) (hs : C.Encodable s) : handled C h s = s := by
+  induction s with
+  | nil => rfl
+  | cons c cs ih =>
+    have hc : C.canEnc c = true := hs c (by simp)
+    have := ih (fun x hx => hs x (by simp [hx]))
+    simp only [handled, List.flatMap_cons, hc, if_true] at this ⊢
+    simp [this]
+
 /-! ### the reader on the writer's image -/
 
 /-- what the writer makes of one character: `&amp; &lt; &gt;`, `&quot;` when the value is double-quoted and holds both
